@@ -374,6 +374,8 @@ def run_go(ops, binary="bklgo", timeout_ms=20000, mem_mb=3000):
 
 def _run_go(ops, exe, timeout_ms, mem_mb, scratch):
     env = dict(os.environ, BKLGO_TIMEOUT_MS=str(timeout_ms), BKLGO_MEM_MB=str(mem_mb), GOMAXPROCS="4", TMPDIR=scratch)
+    # a -race build stops at the first report: the op being executed is then the unanswered one (the culprit below)
+    env["GORACE"] = "halt_on_error=1 exitcode=66"
     res = {}
     n = min(NCPU, max(1, len(ops) // 50 + 1))
     shards = [ops[i::n] for i in range(n)]
@@ -414,7 +416,9 @@ def _run_go(ops, exe, timeout_ms, mem_mb, scratch):
                 kind = "stack_overflow"
             elif "out of memory" in err:
                 kind = "oom"
-            r[culprit["id"]] = {"id": culprit["id"], kind: True, "crash": True, "rc": rc, "stderr": err[:600] + " ... " + err[-300:]}
+            if "WARNING: DATA RACE" in err:
+                kind = "race"
+            r[culprit["id"]] = {"id": culprit["id"], kind: True, "crash": True, "rc": rc, "stderr": (err[err.find("WARNING: DATA RACE"):][:2500] if kind == "race" else err[:600] + " ... " + err[-300:])}
             todo = rest[1:]
         return r
 
